@@ -62,7 +62,7 @@ class Consts:
         self.hi_byte = hi_byte
         # which of the repairs proposed in findings/C05.proposed.json the tree under test carries (the model
         # follows repaired code): subset of {"wap", "gemini", "spartan"}; set when a fix: commit lands
-        self.fixes = []
+        self.fixes = ["wap", "gemini"]
 
     def tla_files(self, sets=None):
         """Generated constants module.  Sets of strings go here too: a TLC configuration file does not process
